@@ -4,6 +4,8 @@ package main
 
 import (
 	"os"
+
+	"golang.org/x/tools/go/ssa"
 	"fmt"
 	"go/constant"
 	"go/types"
@@ -137,11 +139,20 @@ func (env *SpecEnv) eval(e Expr) (Val, types.Type) {
 			}
 			return Sc{st.arrayIn(env.snap(), "GG_"+g.Name, s), s}, gt
 		}
-		// package-level constant in the current package
+		// package-level constant or variable in the current package
 		if env.pkg != nil {
 			if obj := env.pkg.Types.Scope().Lookup(x.Name); obj != nil {
 				if c, ok := obj.(*types.Const); ok {
 					return env.constVal(c), c.Type()
+				}
+				if gv, ok := obj.(*types.Var); ok {
+					if sp := vc.ssaPkgs[env.pkg.PkgPath]; sp != nil {
+						if g, ok := sp.Members[x.Name].(*ssa.Global); ok {
+							id := vc.strLit("global:" + g.String())
+							loc := LocV{Obj: "(- " + id + ")", Owner: "global_" + ownerKey(gv.Type()), Typ: gv.Type()}
+							return st.loadLoc(loc, env.snap()), gv.Type()
+						}
+					}
 				}
 			}
 		}
@@ -154,6 +165,11 @@ func (env *SpecEnv) eval(e Expr) (Val, types.Type) {
 		c := env.evalBool(x.C)
 		a, ta := env.eval(x.A)
 		b, _ := env.eval(x.B)
+		if sa, ok := a.(SetV); ok {
+			if sb, ok := b.(SetV); ok {
+				return SetV{T: sIte(c, sa.T, sb.T), K: sa.K}, ta
+			}
+		}
 		as, ok1 := a.(Sc)
 		bs, ok2 := b.(Sc)
 		if !ok1 || !ok2 {
@@ -834,6 +850,14 @@ func (env *SpecEnv) evalCall(c *ECall) (Val, types.Type) {
 			sfail("pointee(): dynamic type %s is not a pointer", iv.Dyn)
 		}
 		return st.loadLoc(LocV{Obj: iv.Pay, Owner: ownerKey(pt.Elem()), Typ: pt.Elem()}, env.snap()), pt.Elem()
+	case "baseof":
+		// baseof(slice): the identity of the slice's backing array (used as the identity of a byte string)
+		sv, _ := env.eval(c.Args[0])
+		sl, ok := sv.(SliceV)
+		if !ok {
+			sfail("baseof() needs a slice")
+		}
+		return intv(sl.Base), tInt
 	case "addr":
 		// addr(x): the address of an address-taken local variable x
 		id, ok := c.Args[0].(*EIdent)
